@@ -77,6 +77,8 @@ class Vec:
         # a float array narrower than float64 (float32 / float16): values are modelled exactly, but arithmetic or comparisons carried out
         # in that width round differently from float64 - recorded as an event, see models_np.note_int_arith
         self.narrow = False
+        # the `.data` / np.ma.getdata view of a masked array: shares the memory, reads see no mask and writes keep the cell's mask bit
+        self.dview = False
 
     # ---- construction ----
     @classmethod
@@ -95,6 +97,7 @@ class Vec:
         v = Vec(self.back, idx, self.kind, self.dtype, self.unit, self.index, self.tz)
         v.ro = self.ro
         v.narrow = self.narrow
+        v.dview = self.dview
         for k, val in kw.items():
             setattr(v, k, val)
         return v
@@ -118,6 +121,8 @@ class Vec:
         for i in self.idx:
             if i is None or i < 0 or i >= len(cells):
                 out.append(El(OOB, False))
+            elif self.dview:
+                out.append(El(cells[i].d, False))
             else:
                 out.append(cells[i])
         return out
@@ -127,9 +132,13 @@ class Vec:
         cells = self.back.cells
         if j is None or j < 0 or j >= len(cells):
             return El(OOB, False)
+        if self.dview:
+            return El(cells[j].d, False)
         return cells[j]
 
     def set(self, i, el):
+        if self.dview:
+            el = El(el.d, self.back.cells[self.idx[i]].m)
         self.back.cells[self.idx[i]] = el
 
     def is_ma(self):
